@@ -26,8 +26,15 @@ def plans(tier):
         ("train",), ("ok", "shape0", "foreign2"), ("A", "B"))
     small = letters(("train",), ("ok", "shape2", "unsafe1", "foreign0",
                                  "missing1", "extra"), ("-", "A"))
+    withb = letters(("train",), ("ok", "shape2", "rank2", "shape0", "missing2",
+                                 "bigbytes", "emptybytes"), ("-", "A"))
+    bplans = [
+        dict(fmt="tfrec+b", eps=2, depth=2, letters=withb, readers=("sync",)),
+        dict(fmt="npz+b", eps=2, depth=2 if tier == "quick" else 3,
+             letters=withb, readers=("sync", "concurrent")),
+    ]
     if tier == "thorough":
-        return [
+        return bplans + [
             dict(fmt="fb", eps=2, depth=4, letters=base, readers=("sync",)),
             dict(fmt="fb", eps=2, depth=2, letters=base,
                  readers=READERS["fb"]),
@@ -38,7 +45,7 @@ def plans(tier):
             dict(fmt="fb", eps=1, depth=3, letters=base, readers=("sync",)),
             dict(fmt="fb", eps=3, depth=4, letters=small, readers=("sync",)),
         ]
-    return [
+    return bplans + [
         dict(fmt="fb", eps=2, depth=3, letters=base, readers=("sync",)),
         dict(fmt="fb", eps=2, depth=2, letters=small, readers=READERS["fb"]),
         dict(fmt="npz", eps=2, depth=2, letters=base,
